@@ -214,9 +214,12 @@ fn reference_wrap_exec(start: &u32, _ctx: &crate::explore::WorkerCtx) -> crate::
     let start = *start;
     let mut res = crate::explore::ExecResult::default();
     let node = Node::new("me@127.0.0.1", "c");
-    node.reference_counter_verif().store(start, std::sync::atomic::Ordering::SeqCst);
     let mut seen: HashSet<Vec<u32>> = HashSet::new();
     let mut first_dup: Option<(usize, Vec<u32>)> = None;
+    // a counter value that a node really reaches (a multiple of three): the references it made when it started are part of
+    // the history, and the ones made after the wrap must differ from them too
+    if start != 0 && start % 3 == 0 { for _ in 0..10 { seen.insert(node.make_reference().ids.clone()); } }
+    node.reference_counter_verif().store(start, std::sync::atomic::Ordering::SeqCst);
     for i in 0..4000usize {
         let r = node.make_reference();
         if !seen.insert(r.ids.clone()) && first_dup.is_none() { first_dup = Some((i, r.ids.clone())); }
@@ -236,7 +239,7 @@ pub fn run(rep: &Report) -> Value {
     src.push((true, Some(0x1_0001), false, Some(100)));
     src.push((true, Some(2), false, Some(100)));
     let st_src = crate::explore::for_all(rep, "all sources of process identifiers", &src, |k, ctx| identifier_sources_exec(k, ctx));
-    let starts = [u32::MAX - 5, u32::MAX - 3000, (1u32 << 31) - 7, 0];
+    let starts = [u32::MAX - 5, u32::MAX - 3000, (1u32 << 31) - 7, 0, u32::MAX - 3, u32::MAX - 6, u32::MAX - 9];
     let st_rw = crate::explore::for_all(rep, "references across the wrap of their 32-bit counter", &starts, |k, ctx| reference_wrap_exec(k, ctx));
     let ks: Vec<usize> = (0..=6).collect();
     let st_u = crate::explore::for_all(rep, "references around failing unlinks", &ks, |k, ctx| failing_unlinks_exec(k, ctx));
